@@ -142,6 +142,7 @@ func (c RawConfiguration) handleCorrectableCall(ctx context.Context, corr *Corre
 		clevel  = LevelNotSet
 		quorum  bool
 		replies = make(map[uint32]protoreflect.ProtoMessage)
+		failed  = make(map[uint32]bool)
 	)
 
 	if state.data.ServerStream {
@@ -177,6 +178,12 @@ func (c RawConfiguration) handleCorrectableCall(ctx context.Context, corr *Corre
 		select {
 		case r := <-state.replyChan:
 			if r.err != nil {
+				if failed[r.nid] {
+					// a streaming call can be handed several errors for one node
+					// (stream down, then the failed send); count the node once
+					break
+				}
+				failed[r.nid] = true
 				errs = append(errs, nodeError{nodeID: r.nid, cause: r.err})
 				vEmit("CallRecv", r.nid, state.md.MessageID, "err", true, "nerr", len(errs), "nrep", len(replies))
 				break
